@@ -27,6 +27,19 @@ Theorem length_suffices : forall t base,
 Proof. exact hw_length_suffices. Qed.
 Print Assumptions length_suffices.
 
+(* exact counts (no slack): write() uses header_length + the aligned sizes; get_length is the page round-up of exactly
+   sizeof(header) + the aligned sizes, the smallest multiple of the page size that holds them, and the two headers agree *)
+Theorem write_used_exact : forall t base,
+  cursor_end t base - base = SHMEM_HEADER_LENGTH + sum_aligned (sizes ksize t).
+Proof. exact hw_write_used_exact. Qed.
+Theorem get_length_exact : forall sizes,
+  let need := SIZEOF_STRUCT_HWLOC_SHMEM_HEADER + sum_aligned sizes in
+  get_length sizes = align_up SHMEM_PAGESIZE need /\
+  need <= get_length sizes < need + SHMEM_PAGESIZE /\ get_length sizes mod SHMEM_PAGESIZE = 0 /\
+  need = SHMEM_HEADER_LENGTH + sum_aligned sizes.
+Proof. exact hw_get_length_exact. Qed.
+Print Assumptions get_length_exact.
+
 (* the C request order (root object and level arrays first) needs the same number of bytes *)
 Theorem length_order_independent : forall s, sum_aligned (c_sizes s) = sum_aligned (sizes ksize (topo_tree s)).
 Proof. exact (hw_c_order_same_total align). Qed.
